@@ -15,18 +15,23 @@ Domain : configuration (Colang 1.0 / 2.x, 1-4 input rails drawn in order from th
          x (Colang 2.x) one or two more flows, in interaction loops of their own, that wait for the user utterance next to
          the main-loop dialog flow (any utterance / one text; then LLM call, generated value, dialog action or fixed message);
          optionally the main-loop flow is the one that waits for one text only.
+         x (Colang 2.x) one call of the conversation hands over TWO different user messages (generate(messages=[a, b]) or two
+         UtteranceUserActionFinished events in one process_events call of the state API): one event-processing cycle.
+         x concurrent leg: 2-3 conversations served at the same time by ONE LLMRails instance (asyncio tasks on a virtual-time
+         loop, start offsets, a latency per rail invocation and per LLM call: the rail actions really wait).
 Oracle : reference model of the input chain (vf.pipeline.model_input) checked on three observation channels:
          (a) trace of rail-action invocations (order, text seen), (b) prompt log of the scripted LLM,
          (c) the value returned by generate.
 Not asserted (DESIGN 4/C01 S): what output rails do with the refusal; retrieval rails running while the refusal is
          generated; Colang 2.x rewriting (v2 rails are check-only); the content of the reply of an un-blocked turn.
 """
+import asyncio
 import json
 import re
 
 from hypothesis import strategies as st
 
-from vf import fakes, pipeline
+from vf import fakes, pipeline, vclock
 from vf.core import Violation, ok
 from vf.fakes import GENERATION_TASKS, block_message, refusal_text
 
@@ -35,7 +40,7 @@ LEVEL = "exploration"
 CASE_TIMEOUT = 60
 WALL = {"quick": 170, "thorough": 1500}
 RULE = (
-    "case = configuration (v1 ~83% / v2 ~17%; 1-4 ordered input rails from {check, rewrite(v1), block-or-rewrite(v1), shipped "
+    "case = configuration (sequential leg, 5 cases in 6: v1 7 in 9 / v2 2 in 9; 1-4 ordered input rails from {check, rewrite(v1), block-or-rewrite(v1), shipped "
     "self check input}; 0-2 output rails; retrieval rail 0/1 (v1); dialog rails on/off; enable_rails_exceptions on/off; v2 rails "
     "declared in config.yml or hand-written `flow input rails $input_text`) x 1-4 turns, each with a user text = hostile "
     "characters/intents around a unique marker, a dialog route (predefined / LLM / mixed / LLM-chosen next step / custom action) "
@@ -51,16 +56,30 @@ RULE = (
     "Two thirds of the configurations with enable_rails_exceptions draw the event type of the rail exception per generated check / block-or-rewrite rail "
     "(InputRailException, ContentSafetyCheckInputException, LlamaGuardInputRailException, three custom names ending in `Exception`; the shipped rail keeps its own): "
     "the reply to a rejected message must be the rail-exception message of the rejecting rail under ITS event type (Colang 1.0: role `exception`). "
-    "Colang 2.x is 1 case in 6; two thirds of its configurations without `llm continuation` add one or two flows in interaction loops of their own (two loop names, so two listeners "
+    "Two thirds of the Colang 2.x configurations without `llm continuation` add one or two flows in interaction loops of their own (two loop names, so two listeners "
     "may share a loop) that wait for the user utterance as well - `user said something` (2/3) or `user said \"<the plain text of one turn>\"` - and then call the LLM "
     "(PassthroughLLMAction), generate a value (`...`), run a dialog action or say a fixed text; in a third of those with an any-utterance listener the main-loop dialog flow "
     "waits for one text only. For a turn heard by k >= 2 flows the rail trace must be a merge of complete copies of the reference chain (each waiting flow hands the message to the rails), "
     "the first dialog/generation step of any flow comes after one complete accepting pass, and on a reject no flow makes an LLM call / runs a dialog action and the reply holds nothing but the refusal (at most once per pass) / the rail exception. "
+    "Two in five of the Colang 2.x conversations hand over TWO different user messages in the call of one drawn turn - the turn text and an expected text `UB{t}Z <words>` that the first listener "
+    "(or the main-loop flow) waits for, expected text second (3 in 4) or first - through generate / generate_async(messages=[a, b]) or (2 in 4) the state API (all calls of the conversation through "
+    "LLMRails.process_events_async, both UtteranceUserActionFinished events in ONE call, the harness answering StartUtteranceBotAction): one event-processing cycle. Such configurations use hand-written "
+    "`flow input rails $input_text` with check rails that are given the text as a parameter, and flows that pass on the transcript they matched (`user said ... as $said`, `$said.transcript`, as the library's passthrough.co does). "
+    "Each message has verdicts of its own and is judged on its own: the rail invocations on ITS text are a merge of complete copies of ITS chain (>= 1 when a flow must have heard it), no rail is given any other text, "
+    "an LLM prompt that shows its text comes after a complete accepting pass of its chain - never if it was rejected -, no dialog/generation step at all if every message was rejected, and its refusal / rail exception is part of the reply. "
+    "One case in six is the CONCURRENT leg: one LLMRails instance (Colang 1.0 4 in 5, 2.x 1 in 5; rails, dialog, exceptions + event types, retrieval, passthrough, v2 style drawn as above) serves 2-3 conversations of 1-2 turns "
+    "(a quarter of the second turns re-send the first text) at the same time: one asyncio task per conversation on a virtual-time loop (vf.vclock), started at a drawn offset (0-40 ms), its turns one after the other through generate_async; "
+    "every rail action really waits (await asyncio.sleep on the virtual clock, latency drawn per invocation from 0-50 ms: a cycled list of 1-5) and so does every LLM call (0-30 ms, list of 1-3), so that while conversation A waits inside a "
+    "rail action conversation B starts and runs its rails. The conversations carry disjoint turn numbers, hence disjoint markers; each is judged on its own with the unchanged reference model (every rail sees ITS text, its verdicts apply to it only: "
+    "a rejected one gets its refusal and no LLM call, an accepted one its prompts with its own text). LLM parameters are not looked at (C15). "
     "Enumerated families: every reference name x four v1 and three v2 configurations; input-off spelling x later options x position of the input-off call; "
-    "every exception event type x two v1 and two v2 configurations with each rail rejecting once; listener action x awaited text x rail style x refusal/exception (one or two listeners, main flow waiting for anything / one text). "
+    "every exception event type x two v1 and two v2 configurations with each rail rejecting once; listener action x awaited text x rail style x refusal/exception (one or two listeners, main flow waiting for anything / one text); "
+    "concurrent leg: five configurations (v1 general / dialog+exceptions+shipped rail / raw passthrough, v2 hand / config) x five schedules (who waits where while the other one runs its rails) x which conversation is rejected by which rail, 2-3 conversations; "
+    "two messages in one call: listener action x six verdict pairs x who waits for what (main flow anything + listener the expected text / main flow the expected text + listener anything / expected text first and a listener per text) x refusal/exception x generate sync/async/state API, with and without an output rail. "
     "Non-trivial = at least 2 input rails and (a reject after an accepting/rewriting rail, or a rewrite followed by a later "
     "rail) in some turn, or a reject in a turn >= 2, or an exact `$name` user text in a turn >= 2, or a judged call after a call that switched the input rails off, "
-    "or a turn heard by flows in >= 2 interaction loops with >= 2 rails or a reject; distinct by the whole case."
+    "or a turn heard by flows in >= 2 interaction loops with >= 2 rails or a reject, or a call with two user messages and >= 2 rails or a reject; "
+    "concurrent leg: a rail invocation or LLM call of ANOTHER conversation ran between two consecutive steps (rail, rail) or (last rail, first generation call) of a turn's input chain; distinct by the whole case."
 )
 ASSUMPTIONS = [
     "rail actions are fakes registered with register_action (system actions, like the shipped self-check actions); the shipped `self check input` rail is driven by the scripted LLM's yes/no",
@@ -74,6 +93,9 @@ ASSUMPTIONS = [
     "rail-exception event types are generated with names that end in `Exception` only (the shipped rails' convention and what the documentation shows); which other events a reply may carry is not asserted",
     "Colang 2.x flows in several interaction loops that wait for the same utterance each hand it to the input rails (the library's `user said` does): how OFTEN the chain runs for one message is not asserted (>= 1 complete pass, every pass complete and in order), nor in which order the flows' replies appear; a turn nobody in the main loop waits for is judged like any other turn",
     "listeners are not combined with the library's `llm continuation` (its handling of utterances no main-loop flow waits for is C11's subject)",
+    "several generate_async calls may be in flight on one LLMRails instance (the server works that way); the conversations served at the same time carry different texts; the fake rail actions wait on the event loop's (virtual) clock after they recorded what they were given; which LLM parameters overlapping calls see is C15's subject (two open findings) and is not looked at here",
+    "two user messages in one call (Colang 2.x): a flow that waits for any utterance takes the FIRST message of the call; for the second one only flows that wait for exactly its text are required to hear it (a message no flow hears gets no rails and reaches nothing: counted, label second-heard-by-no-flow). The reply of such a call is the list of all bot utterances: only the presence of the refusal / rail exception of a rejected message is asserted, and that nothing else is in it when every message was rejected",
+    "two user messages in one call are generated with rails that are given the text as a parameter (hand-written `flow input rails $input_text`, check rails) and with flows that pass on the transcript they matched: the global `$user_message` holds the NEWEST utterance from the moment it arrives, before its rails have run - rails that read the global (config.yml style, the shipped `self check input`) and flows that read it after an earlier message passed get the newer text on the unchanged tree (reported to the coordinator as an observation; not generated, so not judged)",
     "a turn that needs more than 100 internal events makes the Colang 1.0 runtime raise `Too many events.` (safety limit); such cases (many rails + long routes) are counted as skipped, not judged",
 ]
 
@@ -126,6 +148,14 @@ def mk_listen(j):
     return f"LISTEN{j}Z"
 
 
+def mk_burst(t):
+    """Marker of the expected text handed over next to the turn text in the call of turn t (that one carries UM{t}Z)."""
+    return f"UB{t}Z"
+
+
+T0_STEP = 3  # concurrent leg: conversation i uses the turn numbers 3i, 3i+1 (its markers are UM{3i}Z, RWI{r}U{3i}Z ...)
+
+
 def _listener_flow(j, spec):
     lines = [f'@loop("{spec["loop"]}")', f"flow vf listener l{j}", "  global $user_message"]
     lines.append("  user said something" if spec["on"] == "any" else f'  user said "{spec["on"]["text"]}"')
@@ -167,10 +197,58 @@ def _ext_build(cfg, co, y):
         if co.count(head) != 1 or not any(l["on"] == "any" for l in listeners):
             raise RuntimeError("c01 extension: main_on needs the generated `flow vf turn` and a listener that waits for any utterance")
         co = co.replace(head, f'flow vf turn\n  global $user_message\n  user said "{cfg["main_on"]["text"]}"\n')
+    if cfg.get("own"):
+        # every flow that waits for an utterance passes on the transcript IT matched (the library's passthrough.co does the
+        # same: `$user_message = $event.final_transcript`), not the global `$user_message`, which holds the newest utterance
+        if cfg["v"] != 2 or cfg.get("dialog") == "llmc":
+            raise RuntimeError("c01 extension: own-transcript flows are generated for the Colang 2.x `flow vf turn` / listeners")
+        co, n = re.subn(r'(?m)^  (user said (?:something|"[^"\n]*"))$', r"  \1 as $said", co)
+        old = "flow vf llm reply\n  global $user_message\n  $text = await PassthroughLLMAction(user_message=$user_message)\n"
+        if n != 1 + len(listeners) or co.count(old) != 1:
+            raise RuntimeError("c01 extension: own-transcript flows need the generated `flow vf turn` / `flow vf llm reply`")
+        co = co.replace(old, "flow vf llm reply $own\n  $text = await PassthroughLLMAction(user_message=$own)\n")
+        co = re.sub(r"(?m)^(\s+)vf llm reply$", r"\1vf llm reply $said.transcript", co)
+        co = co.replace("PassthroughLLMAction(user_message=$user_message)", "PassthroughLLMAction(user_message=$said.transcript)")
     return co, y
 
 
-pipeline.register_extension("c01", build_config=_ext_build)
+_G = {"tick": 0}  # order of the stamped observation points of ALL conversations on one instance (concurrent leg)
+
+
+def _tick():
+    _G["tick"] += 1
+    return _G["tick"]
+
+
+def _slow_rail_action(cat, i, name):
+    """The standard fake rail action (vf.fakes.make_rail_action: records what it is given, applies the verdict of the
+    conversation it runs for) that then really WAITS - `await asyncio.sleep(latency)` on the (virtual) clock - before it
+    hands its result back: other requests served by the same LLMRails instance run meanwhile.  The latency of every
+    invocation comes from the session (`rail_latency()`: drawn per invocation in the case)."""
+    inner = fakes.make_rail_action(cat, i, name)
+
+    async def rail_action(text=None, context=None):
+        session, _turn = fakes.current()
+        res = await inner(text=text, context=context)  # (no suspension point inside: the entry just appended is this call's)
+        entry = session.trace[-1]
+        entry["g"], entry["vt"] = _tick(), asyncio.get_running_loop().time()
+        lat = session.rail_latency() if hasattr(session, "rail_latency") else 0
+        if lat:
+            await asyncio.sleep(lat)
+        return res
+
+    rail_action.__name__ = name
+    return fakes._system(rail_action, name)
+
+
+def _ext_actions(cfg):
+    """cfg["slow"]: the rail actions of the configuration are the waiting variants (registered under the same names)."""
+    if not cfg.get("slow"):
+        return []
+    return [_slow_rail_action(cat, i, pipeline.rail_action_name(cat, i, cfg["v"])) for cat in ("in", "out") for i, kind in enumerate(cfg.get(cat, [])) if kind != "self"]
+
+
+pipeline.register_extension("c01", build_config=_ext_build, actions=_ext_actions)
 
 
 def waiting(cfg, spec):
@@ -199,9 +277,56 @@ def input_on(options):
     return r.get("input", True) is not False
 
 
+LAT_RAIL = [0, 0.005, 0.01, 0.01, 0.02, 0.03, 0.05]  # seconds on the virtual clock a rail action waits before it answers
+LAT_LLM = [0, 0.005, 0.01, 0.03]
+STARTS = [0, 0, 0.004, 0.005, 0.01, 0.015, 0.02, 0.04]
+
+
+@st.composite
+def _conc_case(draw):
+    """Concurrent leg: 2-3 conversations of 1-2 turns served at the same time by ONE instance (server-style use)."""
+    v = draw(st.sampled_from([1, 1, 1, 1, 2]))
+    n_in = draw(st.sampled_from([1, 2, 2, 3, 3, 4]))
+    cfg = {"v": v, "in": draw(pipeline.st_rail_kinds(v, n_in, n_in, "in")), "out": draw(pipeline.st_rail_kinds(v, 0, 1, "out"))}
+    cfg["dialog"] = draw(st.booleans())
+    cfg["exc"] = draw(st.sampled_from([False, False, True]))
+    if v == 1:
+        cfg["ret"] = draw(st.sampled_from([0, 0, 1]))
+        if draw(st.sampled_from([False, False, False, False, True])):
+            cfg["passthrough"] = True
+    else:
+        cfg["style"] = draw(st.sampled_from(["config", "hand"]))
+    if cfg["exc"] and draw(st.booleans()):
+        types = [draw(st.sampled_from(EXC_TYPES)) if k in ("check", "both") else None for k in cfg["in"]]
+        if any(x not in (None, EXC_DEFAULT) for x in types):
+            cfg["in_exc"] = types
+    cfg["ext"], cfg["slow"] = "c01", True
+    routes = pipeline.routes_for(cfg)
+    convs = []
+    for i in range(draw(st.sampled_from([2, 2, 3]))):
+        turns = []
+        for j in range(draw(st.sampled_from([1, 1, 2]))):
+            t = T0_STEP * i + j
+            turn = {
+                "user": draw(pipeline.st_user_text(t)),
+                "route": draw(st.sampled_from(routes)),
+                "in": [draw(pipeline.st_verdict(k)) for k in cfg["in"]],
+                "out": [draw(pipeline.st_verdict(k, p_accept=8)) for k in cfg["out"]],
+                "body": draw(pipeline.st_body()),
+            }
+            if j >= 1 and draw(st.sampled_from([False, False, False, True])):
+                turn["user"], turn["umark"] = turns[0]["user"], T0_STEP * i  # the same text again
+            turns.append(turn)
+        lat = {"rail": draw(st.lists(st.sampled_from(LAT_RAIL), min_size=1, max_size=5)), "llm": draw(st.lists(st.sampled_from(LAT_LLM), min_size=1, max_size=3))}
+        convs.append({"start": draw(st.sampled_from(STARTS)), "lat": lat, "turns": turns})
+    return {"config": cfg, "conc": convs, "api": "async"}
+
+
 @st.composite
 def _case(draw):
-    v = draw(st.sampled_from([1] * 5 + [2]))
+    if draw(st.sampled_from([False] * 5 + [True])):
+        return draw(_conc_case())
+    v = draw(st.sampled_from([1] * 7 + [2] * 2))
     n_in = draw(st.sampled_from([1, 2, 2, 3, 3, 4]))
     cfg = {"v": v, "in": draw(pipeline.st_rail_kinds(v, n_in, n_in, "in")), "out": draw(pipeline.st_rail_kinds(v, 0, 2, "out"))}
     cfg["dialog"] = draw(st.booleans()) if v == 1 else draw(st.sampled_from([False, True, "llmc"]))
@@ -212,6 +337,15 @@ def _case(draw):
             cfg["passthrough"] = True
     else:
         cfg["style"] = draw(st.sampled_from(["config", "hand"]))
+    # dimension (Colang 2.x): one call of the conversation hands over TWO different user messages (one event-processing cycle);
+    # the second listener such a call needs, the rails that are given their text as a parameter and flows that pass on the
+    # transcript they matched come with it
+    burst = v == 2 and draw(st.sampled_from([False, False, False, True, True]))
+    if burst:
+        cfg["style"], cfg["own"] = "hand", True
+        cfg["in"] = ["check" if k == "self" else k for k in cfg["in"]]
+        if cfg["dialog"] == "llmc":
+            cfg["dialog"] = draw(st.booleans())
     if cfg["exc"] and draw(st.sampled_from([False, True, True])):
         # dimension: the event type of the rail exception, per generated check rail (the shipped rail keeps its own)
         types = [draw(st.sampled_from(EXC_TYPES)) if k in ("check", "both") else None for k in cfg["in"]]
@@ -222,11 +356,15 @@ def _case(draw):
     n_turns = draw(st.sampled_from([1, 2, 2, 3, 3, 4]))
     # dimension (Colang 2.x): one or two more flows, in interaction loops of their own, wait for the user utterance as well
     said = {}  # turn -> the literal text a listener waits for
-    if v == 2 and cfg["dialog"] != "llmc" and draw(st.sampled_from([False, True, True])):
+    burst_t = draw(st.integers(0, n_turns - 1)) if burst else None
+    burst_text = f"{mk_burst(burst_t)} {draw(st.sampled_from(LISTEN_TEXTS))}" if burst else None
+    if v == 2 and cfg["dialog"] != "llmc" and (burst or draw(st.sampled_from([False, True, True]))):
         listeners = []
         for j in range(draw(st.sampled_from([1, 1, 2]))):
             on = "any"
-            if draw(st.sampled_from([False, False, True])):
+            if burst and j == 0:
+                on = {"text": burst_text}  # the flow that is free to take the second message of the call
+            elif draw(st.sampled_from([False, False, True])):
                 s_t = draw(st.integers(0, n_turns - 1))
                 said.setdefault(s_t, f"{fakes.mk_user(s_t)} {draw(st.sampled_from(LISTEN_TEXTS))}")
                 on = {"text": said[s_t]}
@@ -262,7 +400,9 @@ def _case(draw):
             "out": [draw(pipeline.st_verdict(k, p_accept=8)) for k in cfg["out"]],
             "body": draw(pipeline.st_body()),
         }
-        if refs is not None:
+        if t == burst_t:
+            turn["burst"] = {"user": burst_text, "in": [draw(pipeline.st_verdict(k)) for k in cfg["in"]], "first": draw(st.sampled_from([False, False, False, True]))}
+        if refs is not None and t != burst_t:
             if draw(st.booleans()):
                 # the user text is exactly `$name`: no marker, the literal is what every stage must see
                 turn["user"] = "$" + next_ref()
@@ -279,11 +419,12 @@ def _case(draw):
         if t >= 1 and draw(st.sampled_from([False, False, True])):
             # the user sends, character by character, the text of an earlier turn again (usually the previous one)
             s = draw(st.sampled_from([t - 1, t - 1, draw(st.integers(0, t - 1))]))
-            turn["user"] = turns[s]["user"]
-            turn["umark"] = turns[s].get("umark", s)
-            turn.pop("ref", None)
-            if turns[s].get("ref"):
-                turn["ref"] = True
+            if not (t == burst_t and turns[s].get("ref")):  # (the two messages of one call carry markers)
+                turn["user"] = turns[s]["user"]
+                turn["umark"] = turns[s].get("umark", s)
+                turn.pop("ref", None)
+                if turns[s].get("ref"):
+                    turn["ref"] = True
         if v == 1 and t >= 2 and draw(st.sampled_from([False, False, True])):
             # the user edits the previous message / regenerates: this turn is sent with the history BEFORE the previous turn
             turn["redo"] = True
@@ -298,7 +439,7 @@ def _case(draw):
         if opts is not None:
             turn["options"] = opts
         turns.append(turn)
-    return {"config": cfg, "turns": turns, "api": draw(st.sampled_from(["sync", "async"]))}
+    return {"config": cfg, "turns": turns, "api": draw(st.sampled_from(["sync", "async"] + (["events", "events"] if burst else [])))}
 
 
 def strategy(tier):
@@ -451,6 +592,63 @@ def enumerate_cases(tier):
                         {"user": f"{fakes.mk_user(1)} hi there", "umark": 1, "route": "act_llm", "in": ["accept", "accept"], "out": [], "body": "fourth answer"},
                     ]
                     yield {"config": cfg, "turns": turns, "api": "sync"}
+    # concurrent leg: two / three conversations on one instance; configuration x schedule (who waits where while the other
+    # one runs its rails) x which conversation is rejected by which rail
+    SCHED = (
+        ([0.01], [0.01], 0),
+        ([0.03, 0.01], [0.01], 0.004),
+        ([0.01, 0.03], [0.02, 0.01], 0.005),
+        ([0.01, 0.01, 0.04], [0.01], 0.015),
+        ([0.02], [0.005, 0.005, 0.03], 0.01),
+    )
+    for cfg in (
+        {"v": 1, "in": ["check", "rewrite", "check"], "out": [], "dialog": False, "exc": False, "ret": 0},
+        {"v": 1, "in": ["check", "both", "self"], "out": ["check"], "dialog": True, "exc": True, "ret": 1},
+        {"v": 1, "in": ["rewrite", "check"], "out": [], "dialog": False, "exc": False, "ret": 0, "passthrough": True},
+        {"v": 2, "in": ["check", "check"], "out": [], "dialog": True, "exc": False, "style": "hand"},
+        {"v": 2, "in": ["check", "self"], "out": [], "dialog": False, "exc": True, "style": "config"},
+    ):
+        cfg = dict(cfg, ext="c01", slow=True)
+        n, n_out = len(cfg["in"]), len(cfg["out"])
+        last = ["accept", "rewrite", "accept", "accept"][: n - 1] + ["reject"]
+        for a, (lat_a, lat_b, start_b) in enumerate(SCHED if cfg["v"] == 1 else SCHED[:3]):
+            for b, (pat_a, pat_b) in enumerate(((last, ["accept", "rewrite", "accept"][:n]), (["accept"] * n, ["reject"] + ["accept"] * (n - 1)))):
+                def turn(t, pat, k):
+                    return {"user": f"{fakes.mk_user(t)} my secret is x", "route": ("llm", "predef", "pl")[k % 3], "in": pat, "out": ["accept"] * n_out, "body": f"answer {t}"}
+                convs = [
+                    {"start": 0, "lat": {"rail": lat_a, "llm": [0.005]}, "turns": [turn(0, pat_a, a)]},
+                    {"start": start_b, "lat": {"rail": lat_b, "llm": [0.005, 0.02]}, "turns": [turn(T0_STEP, pat_b, a + 1), turn(T0_STEP + 1, ["accept"] * n, a + 2)]},
+                ]
+                if (a + b) % 3 == 2:
+                    convs.append({"start": 0.01, "lat": {"rail": [0.015], "llm": [0]}, "turns": [turn(2 * T0_STEP, pat_a, b)]})
+                yield {"config": cfg, "conc": convs, "api": "async"}
+    # Colang 2.x, two different user messages in one call: what the flow that takes the expected text does x refusal / rail
+    # exception x generate / state API x (verdicts of the turn text, verdicts of the expected text); who waits for what:
+    # main flow anything + listener the expected text / main flow the expected text + listener anything / expected text first
+    # and a listener for each text
+    A, R0, R1 = ["accept", "accept"], ["reject", "accept"], ["accept", "reject"]
+    for a, do in enumerate(LISTEN_DO):
+        for b, (va, vb) in enumerate(((A, A), (R1, A), (R0, A), (A, R0), (A, R1), (R1, R0))):
+            for shape in ("main-any", "main-expected", "expected-first"):
+                if shape != "main-any" and (a + b) % 2:
+                    continue
+                btxt, atxt = f"{mk_burst(1)} hi there", f"{fakes.mk_user(1)} tell me more"
+                n_out = 1 if b % 3 == 0 else 0
+                cfg = {"v": 2, "in": ["check", "check"], "out": ["check"] * n_out, "dialog": bool((a + b) % 2), "exc": bool((a + b // 2) % 2), "style": "hand", "ext": "c01", "own": True}
+                if shape == "main-any":
+                    cfg["listeners"] = [{"loop": LOOPS[0], "on": {"text": btxt}, "do": do}]
+                    atxt = f'say "{fakes.mk_user(1)}" $now'
+                elif shape == "main-expected":
+                    cfg["listeners"] = [{"loop": LOOPS[0], "on": "any", "do": do}]
+                    cfg["main_on"] = {"text": btxt}
+                else:
+                    cfg["listeners"] = [{"loop": LOOPS[0], "on": {"text": btxt}, "do": do}, {"loop": LOOPS[1], "on": {"text": atxt}, "do": LISTEN_DO[(a + 1) % 4]}]
+                turns = [
+                    {"user": f"{fakes.mk_user(0)} hello there", "route": "llm", "in": A, "out": ["accept"] * n_out, "body": "first answer"},
+                    {"user": atxt, "route": ("act_llm", "llm", "predef")[b % 3], "in": va, "out": ["accept"] * n_out, "body": "second answer", "burst": {"user": btxt, "in": vb, "first": shape == "expected-first"}},
+                    {"user": f"{fakes.mk_user(2)} and then", "route": "llm", "in": R1 if b % 2 else A, "out": ["accept"] * n_out, "body": "third answer"},
+                ]
+                yield {"config": cfg, "turns": turns, "api": ("sync", "events", "async")[(a + b) % 3]}
 
 
 BS = chr(92)  # backslash
@@ -487,11 +685,292 @@ class _Session(fakes.Session):
             return "$" + names[idx]
         return super().rewritten(cat, idx, turn, text)
 
+    def rail_verdict(self, cat, idx, turn, text):
+        # two utterances in one call: each has verdicts of its own - the text a rail is given says which one it is judging
+        b = self.turns[turn].get("burst") if turn < len(self.turns) else None
+        if cat == "in" and b and text == b["user"] and text != self.turns[turn]["user"]:
+            return b["in"][idx] if idx < len(b["in"]) else "accept"
+        return super().rail_verdict(cat, idx, turn, text)
+
     def llm_answer(self, task, prompt, turn, k):
         if NLD_TAG in str(prompt) and (turn, k) not in self.override:
             # a listener's `$text = ..."..."` (generate a value): the completion must be a Python literal
             return json.dumps(self.message_text(turn, k, self.turns[turn].get("body", "generated words")))
         return super().llm_answer(task, prompt, turn, k)
+
+
+def burst_messages(spec, t):
+    """The user messages of one call, in the order they are handed over: [{"user", "in", "mark", "which"}]."""
+    a = {"user": spec["user"], "in": spec["in"], "mark": fakes.mk_user(spec.get("umark", t)), "which": "turn text"}
+    b = spec.get("burst")
+    if not b:
+        return [a]
+    b = {"user": b["user"], "in": b["in"], "mark": mk_burst(t), "which": "expected text"}
+    return [b, a] if spec["burst"].get("first") else [a, b]
+
+
+async def _events_call(rails, state, texts):
+    """One call through the state API: the utterances are handed to LLMRails.process_events_async as
+    UtteranceUserActionFinished events of ONE call; the caller plays the bot's utterances (answers every
+    StartUtteranceBotAction with its Finished event, the way generate() does with its instant actions)."""
+    events = [{"type": "UtteranceUserActionFinished", "final_transcript": x} for x in texts]
+    scripts, others = [], []
+    for _ in range(40):
+        out, state = await rails.process_events_async(events, state or None, blocking=True)
+        events = []
+        for ev in out:
+            if ev.get("type") == "StartUtteranceBotAction":
+                scripts.append(ev["script"])
+                events.append({"type": "UtteranceBotActionFinished", "final_script": ev["script"], "action_uid": ev["action_uid"], "is_success": True})
+            else:
+                others.append(ev)
+        if not events:
+            break
+    msg = {"role": "assistant", "content": chr(10).join(scripts)}
+    if others:
+        msg["events"] = others
+    return msg, state
+
+
+def _turn_v2(p, s, t):
+    """A Colang 2.x call that vf.pipeline.Pipeline.turn does not make: several user messages in one call and / or the
+    state API instead of generate."""
+    spec = s.turns[t]
+    texts = [m["user"] for m in burst_messages(spec, t)]
+    api = s.case.get("api", "sync")
+    n_trace, n_llm = len(s.trace), len(s.llm_calls)
+    lp = pipeline.loop()
+    tok = fakes.set_current(s, t)
+    obs = {"reply": None, "raised": None, "log": None}
+    try:
+        if api == "events":
+            obs["reply"], s.state = lp.run_until_complete(_events_call(p.rails, s.state, texts))
+        else:
+            kw = {"messages": [{"role": "user", "content": x} for x in texts], "state": s.state}
+            res = lp.run_until_complete(p.rails.generate_async(**kw)) if api == "async" else p.rails.generate(**kw)
+            obs["reply"], obs["log"] = pipeline._norm_reply(res)
+            if getattr(res, "state", None) is not None:
+                s.state = res.state
+    except Exception as e:
+        obs["raised"] = f"{type(e).__name__}: {e}"
+    finally:
+        fakes.CURRENT.reset(tok)
+    obs["trace"], obs["llm"] = s.trace[n_trace:], s.llm_calls[n_llm:]
+    return obs
+
+
+def _run_seq(case, fresh=False):
+    """vf.pipeline.run_conversation with `_turn_v2` for the calls it has no shape for."""
+    special = case["config"]["v"] == 2 and (case.get("api") == "events" or any(x.get("burst") for x in case["turns"]))
+    if not special:
+        return pipeline.run_conversation(case, fresh=fresh, session_cls=_Session)
+    try:
+        p = pipeline.get_pipeline(case["config"], fresh=fresh)
+        s = p.new_session(case, _Session)
+        if case.get("api") == "events":
+            s.state = None
+        turns = [_turn_v2(p, s, t) for t in range(len(case["turns"]))]
+        return pipeline.Observations(case, s, turns, p)
+    except BaseException:
+        pipeline.reset_runtime()
+        raise
+
+
+def _judge_burst(cfg, spec, o, t, what):
+    """Two different user messages handed over in ONE call (one event-processing cycle).  The statement is about every
+    user message: each of them, X, has its own reference chain (its verdicts); judged per message:
+      chain   the rail invocations on X's text are a merge of complete copies of X's chain (>= 1 copy when a flow must have
+              heard X: every waiting flow for the first message of the call, the flows that wait for exactly X's text for the second);
+              no rail is given a text that is neither message;
+      order   an LLM call whose prompt shows X's text comes after a complete accepting pass of X's chain - never, if X was rejected;
+              steps that show no text (dialog actions, other LLM calls) come after a complete accepting pass for SOME message,
+              and there are none if every message that was heard was rejected;
+      reply   the refusal / rail exception of the rail that rejected X is part of the reply; nothing but refusals if all were rejected."""
+    msgs = burst_messages(spec, t)
+    flows = [cfg.get("main_on") or "any"] + [l["on"] for l in cfg.get("listeners") or []]
+    entries = [e for e in o["trace"] if e["cat"] == "in"]
+    labels = ["two-utterances-in-one-call", "two-utterances:expected-text-" + ("first" if spec["burst"].get("first") else "second")]
+    stray = [e for e in entries if all(e["text"] != m["user"] for m in msgs)]
+    if stray:
+        raise Violation("input-rail-chain", f"{what}: {stray[0]['rail']} was given {str(stray[0]['text'])[:80]!r}, which is none of the user messages of the call {[m['user'][:60] for m in msgs]}", {"turn": t, "v": 2})
+    gen = [c for c in o["llm"] if c["task"] in GENERATION_TASKS]
+    dialog = [e for e in o["trace"] if e["cat"] == "dialog"]
+    passed, refused = [], []  # (message, seq of its first complete accepting pass) / (message, rejecting rail, copies)
+    for n, m in enumerate(msgs):
+        must = sum(1 for w in flows if (w == "any" and n == 0) or (w != "any" and w["text"] == m["user"]))
+        mod = pipeline.model_input(cfg, {"in": m["in"]}, t)
+        calls = [dict(c, sees=m["mark"], **{"not": None}) for c in mod["calls"]]
+        mine = [{k: v for k, v in e.items() if k != "ctx"} for e in entries if e["text"] == m["user"]]  # (the rails are given the text as a parameter)
+        w = f"{what[:-1]}; message {n + 1} of {len(msgs)} in the call, the {m['which']} {m['user'][:60]!r}, verdicts {m['in']})"
+        if not mine and not must:
+            labels.append("two-utterances:second-heard-by-no-flow")
+            continue
+        prob, copies = _merged_chain_problem(calls, mine, w)
+        if prob:
+            raise Violation("input-rail-chain", prob, {"turn": t, "v": 2, "no_rail_ran": not mine})
+        # (a prompt that carries the conversation so far - a listener's `...` - also shows an earlier turn that sent the same text)
+        shown = [c for c in gen if m["mark"] in str(c["prompt"]) and not ("umark" in spec and m["which"] == "turn text" and NLD_TAG in str(c["prompt"]))]
+        labels.append(f"two-utterances:message-{n + 1}-" + ("rejected" if mod["blocked"] is not None else "accepted"))
+        if mod["blocked"] is not None:
+            if shown:
+                raise Violation("llm-call-after-block", f"{w}: rail in{mod['blocked']} rejected the message but an LLM prompt ({shown[0]['task']}) shows its text", {"turn": t})
+            refused.append((m, mod["blocked"], copies))
+        else:
+            done = min(e["seq"] for e in mine if e["rail"] == calls[-1]["rail"])
+            if shown and min(c["seq"] for c in shown) < done:
+                raise Violation("step-before-input-rails", f"{w}: an LLM prompt ({shown[0]['task']}) shows the text before all the input rails had accepted it", {"turn": t})
+            passed.append((m, done))
+    # (output rails also run on the refusal of a rejected message - not asserted, as in the single-message case)
+    later = [c["seq"] for c in gen] + [e["seq"] for e in o["trace"] if e["cat"] in (("dialog",) if refused else ("dialog", "out", "ret"))]
+    if passed:
+        if later and min(later) < min(d for _m, d in passed):
+            raise Violation("step-before-input-rails", f"{what}: a dialog/generation step ran before all the input rails had accepted any of the messages", {"turn": t})
+    else:
+        if gen:
+            raise Violation("llm-call-after-block", f"{what}: every message of the call was rejected but the LLM was still called for {[c['task'] for c in gen]}", {"turn": t})
+        if dialog:
+            raise Violation("dialog-step-after-block", f"{what}: a dialog action ran although every message of the call was rejected", {"turn": t})
+    text = pipeline.reply_text(o)
+    lines = [x.strip() for x in text.split(chr(10)) if x.strip()]
+    for m, i, copies in refused:
+        kind = cfg["in"][i]
+        if cfg["exc"]:
+            want, typ = block_message("in", i, kind), exc_type(cfg, i)
+            if not any(e.get("type") == typ and e.get("message") == want for e in pipeline.reply_exceptions(o)):
+                raise Violation("refusal-missing", f"{what}: message {m['user'][:60]!r} was rejected by in{i}: expected the rail exception {typ} with message {want!r}, reply was {o['reply']!r}"[:700], {"turn": t})
+        else:
+            want = refusal_text("in", i, kind)
+            room = sum(c for _m, k, c in refused if refusal_text("in", k, cfg["in"][k]) == want)
+            if not 1 <= lines.count(want) <= room:
+                raise Violation("refusal-missing", f"{what}: message {m['user'][:60]!r} was rejected by in{i}: its refusal {want!r} must be in the reply (once per pass of the chain at most), got {o['reply']!r}"[:700], {"turn": t})
+    if refused and not passed:
+        allowed = set() if cfg["exc"] else {refusal_text("in", i, cfg["in"][i]) for _m, i, _c in refused}
+        if any(x not in allowed for x in lines):
+            raise Violation("refusal-missing" if not cfg["exc"] else "llm-text-after-block" if fakes.lineage(text) else "dialog-text-after-block", f"{what}: every message of the call was rejected, the reply must hold nothing but the refusals / rail exceptions, got {o['reply']!r}"[:700], {"turn": t})
+    if refused:
+        labels.append("blocked")
+    nt = len(cfg["in"]) >= 2 or bool(refused)
+    return labels, nt
+
+
+class _ConcSession(_Session):
+    """One of several conversations served at the same time by one instance: turn numbers start at t0, every rail
+    invocation and every LLM call waits for the next latency of the conversation's drawn lists."""
+
+    def __init__(self, case, cfg, t0, lat):
+        super().__init__(case, cfg)
+        self.t0 = t0
+        self.turns = [{} for _ in range(t0)] + list(case["turns"])
+        self.lat = {"rail": list(lat.get("rail") or [0]), "llm": list(lat.get("llm") or [0])}
+        self.n_lat = {"rail": 0, "llm": 0}
+
+    def _next(self, what):
+        self.n_lat[what] += 1
+        return self.lat[what][(self.n_lat[what] - 1) % len(self.lat[what])]
+
+    def rail_latency(self):
+        return self._next("rail")
+
+    def llm_latency(self, turn, k, task):
+        if self.llm_calls:
+            self.llm_calls[-1]["g"] = _tick()  # (called by the scripted LLM right after it recorded the call)
+        return self._next("llm")
+
+
+def _virtual(coro_fn):
+    loop = vclock.VirtualLoop(max_steps=400_000)
+    interrupted = True
+    try:
+        with loop.alarm_relay():
+            out = loop.run_until_complete(coro_fn(loop))
+        interrupted = False
+        return out
+    except Exception:
+        interrupted = False
+        raise
+    finally:
+        loop.shutdown(run_cancelled=not interrupted)
+
+
+def _run_conc(case, fresh):
+    """Serves the conversations of case["conc"] at the same time with ONE LLMRails instance: one asyncio task each (start
+    offset, then its turns one after the other through generate_async) on a virtual-time loop."""
+    cfg = case["config"]
+    try:
+        p = pipeline.get_pipeline(cfg, fresh=fresh)
+        p.rails.events_history_cache.clear()
+        _G["tick"] = 0
+        subs, sessions, obs = [], [], []
+        for i, conv in enumerate(case["conc"]):
+            sub = {"config": cfg, "turns": conv["turns"], "api": "async"}
+            s = _ConcSession(sub, cfg, T0_STEP * i, conv.get("lat") or {})
+            s.messages = []
+            s.state = {} if cfg["v"] == 2 else None
+            subs.append(sub)
+            sessions.append(s)
+            obs.append([])
+
+        async def one(i):
+            if case["conc"][i].get("start"):
+                await asyncio.sleep(case["conc"][i]["start"])
+            for j in range(len(subs[i]["turns"])):
+                obs[i].append(await p.turn_async(sessions[i], sessions[i].t0 + j))
+
+        async def main(loop):
+            await asyncio.gather(*[loop.create_task(one(i)) for i in range(len(subs))])
+
+        _virtual(main)
+        return p, subs, sessions, obs
+    except BaseException:
+        pipeline.reset_runtime()
+        raise
+
+
+def _check_conc(case, fresh=False):
+    """Every conversation is judged on its own with the reference model of the sequential leg (`_check`): what the other
+    conversations on the instance do meanwhile must not show in its rail trace, its prompts, its replies."""
+    p, subs, sessions, obs = _run_conc(case, fresh)
+    labels, views = set(), []
+    for i, sub in enumerate(subs):
+        try:
+            res = _check(sub, pipeline.Observations(sub, sessions[i], obs[i], p), t0=sessions[i].t0)
+        except Violation as e:
+            others = [[c["start"], [t["user"][:40] for t in c["turns"]]] for k, c in enumerate(case["conc"]) if k != i]
+            raise Violation(e.kind, f"[{len(subs)} conversations served at the same time by one LLMRails instance; conversation {i}, start offset {case['conc'][i].get('start', 0)}, latencies {case['conc'][i].get('lat')}; the others (start, texts): {others}] {e.msg}"[:1500], dict(e.detail or {}, conversation=i, leg="concurrent"))
+        if res.get("skip"):
+            return res
+        labels.update(res["labels"])
+        views.append(res["view"])
+    # schedule facts: what ran, of ANOTHER conversation, between two consecutive steps of the input chain of a turn
+    points = []  # (g, conversation, turn, kind)
+    for i, s in enumerate(sessions):
+        points += [(e["g"], i, e["turn"], "rail") for e in s.trace if "g" in e]
+        points += [(c["g"], i, c["turn"], "llm") for c in s.llm_calls if "g" in c]
+    points.sort()
+    cfg = case["config"]
+    between_rails = between_rail_and_llm = overlap = False
+    for i, s in enumerate(sessions):
+        for t in range(s.t0, len(s.turns)):
+            own = [(e["g"], "rail") for e in s.trace if e["turn"] == t and e["cat"] == "in" and "g" in e]
+            first_llm = [c["g"] for c in s.llm_calls if c["turn"] == t and c["task"] in GENERATION_TASKS and "g" in c][:1]
+            steps = own + [(g, "llm") for g in first_llm]
+            for (a, _ka), (b, kb) in zip(steps, steps[1:]):
+                if any(a < g < b and k != i for g, k, _t, _kind in points):
+                    if kb == "rail":
+                        between_rails = True
+                    else:
+                        between_rail_and_llm = True
+            all_own = [g for g, k, tt, _kind in points if k == i and tt == t]
+            if all_own and any(min(all_own) < g < max(all_own) and k != i for g, k, _t, _kind in points):
+                overlap = True
+    labels = {l for l in labels if not l.startswith("turns=")}
+    labels.update(["leg=concurrent", f"conversations={len(subs)}", "turns-per-conversation=" + "/".join(sorted({str(len(x["turns"])) for x in subs}))])
+    if between_rails:
+        labels.add("another-conversation-ran-between-two-input-rails-of-a-turn")
+    if between_rail_and_llm:
+        labels.add("another-conversation-ran-between-the-last-input-rail-and-the-first-generation-call")
+    labels.add("requests-overlap" if overlap else "requests-do-not-overlap")
+    return ok(nt=between_rails or between_rail_and_llm, labels=sorted(labels), view={"config": cfg, "conversations": [{"start": c.get("start", 0), "lat": c.get("lat"), "turns": v["turns"]} for c, v in zip(case["conc"], views)]})
 
 
 def _model(cfg, spec, t):
@@ -556,7 +1035,9 @@ def _ambiguous_literals(case, config=None):
     return {x for x in lits if any(x != y and x in y for y in texts)}
 
 
-def _check(case, obs):
+def _check(case, obs, t0=0):
+    """Judges one conversation.  t0: number of the first turn (0 but in the concurrent leg, where the conversations on one
+    instance get disjoint turn numbers - the markers are made of them); j = position of a turn in ITS conversation."""
     cfg = case["config"]
     v = cfg["v"]
     labels = [f"v{v}", ("llm-continuation" if cfg["dialog"] == "llmc" else "dialog") if cfg["dialog"] else "general-mode", f"in-rails={len(cfg['in'])}", f"turns={len(case['turns'])}", case.get("api", "sync")]
@@ -584,11 +1065,17 @@ def _check(case, obs):
     ambiguous = _ambiguous_literals(case, getattr(obs.pipeline, "config", None))
     varied = False  # some call so far used other generation options than the first one: the history may be the caller's messages
     off_before = False  # an earlier call of the conversation switched the input rails off
-    for t, (spec, o) in enumerate(zip(case["turns"], obs.turns)):
+    for j, (spec, o) in enumerate(zip(case["turns"], obs.turns)):
+        t = t0 + j
         if o["raised"]:
             if pipeline.EVENT_BUDGET in o["raised"]:
                 return ok(skip="v1 runtime gave up: more than 100 new events in one turn (documented safety limit)", labels=["event-budget-exceeded"])
             raise RuntimeError(f"generate raised in turn {t}: {o['raised']}")
+        if spec.get("burst"):
+            lb, n = _judge_burst(cfg, spec, o, t, f"v{v} turn {t} (two user messages in one {'process_events' if case.get('api') == 'events' else 'generate'} call)")
+            labels += lb + ["route=" + (spec["route"] if cfg["dialog"] else "general")]
+            nt = nt or n
+            continue
         m = _model(cfg, spec, t)
         opts = spec.get("options")
         varied = varied or opts != case["turns"][0].get("options")
@@ -607,7 +1094,7 @@ def _check(case, obs):
             labels.append("options-differ-between-calls")
         if spec.get("ref"):
             labels.append("user-text=$" + ("defined-variable" if spec["user"][1:] not in UNDEF_REF_NAMES else "undefined-name"))
-            nt = nt or t >= 1
+            nt = nt or j >= 1
         if any(spec.get("rw_ref") or []):
             labels.append("rewrite-product=$variable")
         entries = [e for e in o["trace"] if e["cat"] == "in"]
@@ -654,7 +1141,7 @@ def _check(case, obs):
             if i > 0:
                 labels.append("reject-after-" + ("rewrite" if "rewrite" in verdicts[:i] else "accept"))
                 nt = nt or len(cfg["in"]) >= 2
-            if t >= 1:
+            if j >= 1:
                 labels.append("block-in-turn>=2")
                 nt = True
             if heard:
@@ -754,16 +1241,37 @@ def _check(case, obs):
             nt = nt or bool(rewritten_before)
         if "umark" in spec:
             labels.append("repeated-user-text")
-            prev = _model(cfg, case["turns"][t - 1], t - 1)
-            if spec["user"] == case["turns"][t - 1]["user"]:
-                labels.append("same-text-as-previous-turn:" + ("unchecked" if not input_on(case["turns"][t - 1].get("options")) else "rejected" if prev["blocked"] is not None else "passed") + "-then-" + ("rejected" if m["blocked"] is not None else "passed"))
+            prev = _model(cfg, case["turns"][j - 1], t - 1)
+            if spec["user"] == case["turns"][j - 1]["user"]:
+                labels.append("same-text-as-previous-turn:" + ("unchecked" if not input_on(case["turns"][j - 1].get("options")) else "rejected" if prev["blocked"] is not None else "passed") + "-then-" + ("rejected" if m["blocked"] is not None else "passed"))
                 nt = True
         labels.append("route=" + (spec["route"] if cfg["dialog"] else "general"))
     return ok(nt=nt, labels=sorted(set(labels)), view=pipeline.view(case, obs))
 
 
 def prop(case):
-    return pipeline.run_checked(case, _check, session_cls=_Session)
+    if "conc" in case:
+        try:
+            return _check_conc(case, fresh=False)
+        except Violation as first:
+            # as vf.pipeline.run_checked: a violation seen on a reused instance must reproduce on a fresh one
+            try:
+                _check_conc(case, fresh=True)
+            except Violation:
+                raise
+            raise RuntimeError(f"harness: violation seen only on a reused LLMRails instance, not on a fresh one: {first}")
+    try:
+        return _check(case, _run_seq(case, fresh=False))
+    except Violation as first:
+        # (vf.pipeline.run_checked) a violation seen on a reused instance must reproduce on a fresh one
+        try:
+            _check(case, _run_seq(case, fresh=True))
+        except Violation:
+            raise
+        raise RuntimeError(f"harness: violation seen only on a reused LLMRails instance, not on a fresh one: {first}")
+    except Exception as e:
+        pipeline._dump(case, e)
+        raise
 
 
 def known(case, violation):
